@@ -294,12 +294,12 @@ static void put_fail(void) { fputs("{\"ok\":false}", out); }
 static void typed_unmarshal(struct evbuffer *eb, const char *k, ev_uint32_t need, size_t fixlen, int with_rem)
 {
 	int rc;
-	if (!strcmp(k, "int")) {
+	if (!strncmp(k, "int", 3)) {
 		ev_uint32_t v = 0xdeadbeef;
 		rc = evtag_unmarshal_int(eb, need, &v);
 		if (rc < 0) { put_fail(); return; }
 		fprintf(out, "{\"ok\":true,\"rc\":%d,\"v\":", rc); put_digits(v, 4);
-	} else if (!strcmp(k, "i64")) {
+	} else if (!strncmp(k, "i64", 3)) {
 		ev_uint64_t v = 0xdeadbeefdeadbeefULL;
 		rc = evtag_unmarshal_int64(eb, need, &v);
 		if (rc < 0) { put_fail(); return; }
@@ -318,7 +318,7 @@ static void typed_unmarshal(struct evbuffer *eb, const char *k, ev_uint32_t need
 		fprintf(out, "{\"ok\":true,\"rc\":%d,\"tag\":", rc); put_digits(tag, 7);
 		fputs(",\"v\":", out); put_buf(dst);
 		evbuffer_free(dst);
-	} else if (!strcmp(k, "tv")) {
+	} else if (!strncmp(k, "tv", 2)) {
 		struct timeval tv = { -1, -1 };
 		rc = evtag_unmarshal_timeval(eb, need, &tv);
 		if (rc < 0) { put_fail(); return; }
@@ -409,6 +409,20 @@ static void op_tagrt(const jval *c)
 				evbuffer_free(src);
 			} else evtag_marshal(eb, tag, b, (ev_uint32_t)bn);
 			free(b);
+		} else if (!strcmp(k, "intpad") || !strcmp(k, "i64pad") || !strcmp(k, "tvpad")) {
+			/* declared length larger than the integers inside: real encoders + pad bytes, framed by evtag_marshal */
+			struct evbuffer *tmp = evbuffer_new();
+			size_t pad = (size_t)j_int(it, "pad", 0), bn;
+			unsigned char *b;
+			if (!strcmp(k, "intpad")) evtag_encode_int(tmp, (ev_uint32_t)digits_val(j_get(it, "v"), 4));
+			else if (!strcmp(k, "i64pad")) evtag_encode_int64(tmp, digits_val(j_get(it, "v"), 4));
+			else { evtag_encode_int(tmp, (ev_uint32_t)digits_val(j_get(it, "s"), 4)); evtag_encode_int(tmp, (ev_uint32_t)digits_val(j_get(it, "u"), 4)); }
+			while (pad--) evbuffer_add(tmp, "\377", 1);
+			bn = evbuffer_get_length(tmp);
+			b = malloc(bn);
+			evbuffer_remove(tmp, b, bn);
+			evtag_marshal(eb, tag, b, (ev_uint32_t)bn);
+			free(b); evbuffer_free(tmp);
 		} else if (!strcmp(k, "tv")) {
 			struct timeval tv;
 			tv.tv_sec = (long)digits_val(j_get(it, "s"), 4);
